@@ -132,7 +132,8 @@ func (g *pgen) value(near float64, useNear bool) string {
 		g.hit("num:large-or-tiny")
 		return g.r.Pick("1e6", "2.5e7", "1E9", "-3e8", "1e-6", "25e-8", "-1E-7", "1000000", "0.000001", "12345678", "1e12", "1e-12")
 	case 15:
-		if g.known {
+		// exponents that are multiples of 100 (K70, repaired in /repo: the 00 => e2 rewrite is for integers only)
+		if g.r.Chance(1, 3) {
 			g.hit("num:exponent-multiple-of-100")
 			return g.r.Pick("1e100", "1e-100", "2E200", "1e+100", "5e-300")
 		}
